@@ -37,6 +37,8 @@ CYCLE_XSD = '''<?xml version="1.0"?>
   <xs:complexType name="C"><xs:complexContent><xs:extension base="c:B"><xs:sequence><xs:element name="a" type="c:A" minOccurs="0"/></xs:sequence></xs:extension></xs:complexContent></xs:complexType>
   <xs:simpleType name="Kind"><xs:restriction base="xs:string"><xs:enumeration value="x"/><xs:enumeration value="y"/></xs:restriction></xs:simpleType>
   <xs:simpleType name="U"><xs:union memberTypes="xs:int xs:boolean xs:string xs:decimal"/></xs:simpleType>
+  <xs:element name="open"><xs:complexType><xs:sequence><xs:any namespace="urn:two urn:one ##local urn:three" processContents="lax" minOccurs="0" maxOccurs="unbounded"/></xs:sequence>
+    <xs:anyAttribute namespace="urn:two urn:one" processContents="lax"/></xs:complexType></xs:element>
   <xs:element name="other"><xs:complexType><xs:choice maxOccurs="unbounded"><xs:element name="p" type="xs:string"/><xs:element name="q" type="c:Kind"/><xs:element ref="c:root"/></xs:choice></xs:complexType></xs:element>
 </xs:schema>
 '''
@@ -109,6 +111,9 @@ def corpus() -> dict[str, dict]:
         "two-namespaces": dict(sources={"na.xsd": TWO_NS_A, "nb.xsd": TWO_NS_B}, uris=["na.xsd"]),
         "hub": dict(sources={"hub.xsd": HUB_XSD}, uris=["hub.xsd"]),
         "same-name": dict(sources={"main.xsd": SAME_MAIN, "billing_v1.xsd": SAME_BILL, "shipping_v2.xsd": SAME_SHIP}, uris=["main.xsd"]),
+        # a directory of samples whose merged field order follows the order in which the documents are processed
+        "sample-directory": dict(sources={f"doc_{n}.xml": f"<r><k{i}>1</k{i}><shared>x</shared><z{11 - i}>2</z{11 - i}></r>"
+                                          for i, n in enumerate(["m", "b", "x", "a", "q", "d", "z", "c", "k", "e", "w", "f"])}, uris=None),
         "primer": dict(sources={"order.xsd": _read("primer/order.xsd")}, uris=["order.xsd"]),
         "books": dict(sources={"schema.xsd": _read("books/schema.xsd")}, uris=["schema.xsd"]),
         "compound": dict(sources={"schema.xsd": _read("compound/schema.xsd")}, uris=["schema.xsd"], options={"compound_fields.enabled": True}),
@@ -448,7 +453,7 @@ def run(tier: str, seed: int) -> int:
     t0 = time.time()
     th = tier == "thorough"
     names = list(corpus())
-    quick_names = names[:10]
+    quick_names = names[:11]
     use = names if th else quick_names
     bound = 2 if th else 1
     if not setorder.TRANSFORMED:
